@@ -74,6 +74,8 @@ fn generate(rng: &mut Rng) -> ConnScenario {
         client.coalesce = true;
         client.ack_delay_ns = 0;
     }
+    // most clients hang up as soon as they have been told where to go; some take a while
+    client.close_on_end_ns = *rng.pick(&[Some(0u64), Some(0), Some(0), Some(secs(1) + OFF_EXTRA / 2), Some(secs(20) + OFF_EXTRA / 2)]);
     let style = rng.below(5);
     let pol = |rng: &mut Rng| -> KaPolicy {
         match rng.below(12) {
